@@ -45,6 +45,35 @@ def gen(rng, tier):
              "envs": {}, "provs": {}, "model": False, "reps": reps,
              "raw_provs": {"p": {"in": schema, "out": "always", "beh": "echo"}}}
         cases.append(c)
+    # keys that differ only in case, with reference cycles between them (an evaluation order that is not a total
+    # order on keys shows up as a different blamed expression from run to run)
+    for i in range(40 if tier == "thorough" else 12):
+        r = rng.fork("k%d" % i)
+        pairs = r.shuffle([("Host", "host"), ("PORT", "port"), ("Key", "kEy"), ("a", "A")])[: 1 + r.below(3)]
+        entries = []
+        for a, b in pairs:
+            entries.append((a, ("sym", [("name", "endpoint"), ("name", b)])))
+            entries.append((b, ("sym", [("name", "endpoint"), ("name", a)])))
+        top = [("endpoint", ("obj", r.shuffle(entries))), ("Zed", ("sym", [("name", "zed")])), ("zed", ("sym", [("name", "Zed")]))]
+        c = {"name": "root", "def": {"imports": [], "values": r.shuffle(top)}, "envs": {}, "provs": {}, "model": True, "reps": reps}
+        cases.append(c)
+    # an unknown provider output (record schema) passed whole as the inputs of a provider whose input schema conflicts
+    # with it on several properties: the schema-against-schema validator must report the same diagnostics every time
+    for i in range(40 if tier == "thorough" else 12):
+        r = rng.fork("u%d" % i)
+        keys = ["host", "port", "user", "tls", "zone"][: 2 + r.below(4)]
+        tys = ["string", "number", "boolean"]
+        out_props = {k: r.choice(tys) for k in keys}
+        in_props = {k: r.choice([t for t in tys if t != out_props[k]]) for k in keys}
+        out_schema = {"t": "object", "props": out_props, "required": sorted(keys), "addl": "never"}
+        in_schema = {"t": "object", "props": in_props, "required": ["r%d" % j for j in range(r.below(3))]}
+        c = {"name": "root", "def": {"imports": [], "values": [("a", ("open", "pa", ("obj", [("k", ("str", "v"))]))),
+                                                             ("b", ("open", "pb", ("sym", [("name", "a")])))]},
+             "envs": {}, "provs": {}, "model": False, "reps": reps, "check": True,
+             "raw_provs": {"pa": {"in": "always", "out": out_schema, "beh": "echo"},
+                           "pb": {"in": in_schema, "out": "always", "beh": "echo"}}}
+        cases.append(c)
+        cases.append(dict(c, check=False, raw_provs={"pa": {"in": "always", "out": out_schema, "beh": "fail"}, "pb": c["raw_provs"]["pb"]}))
     return cases
 
 
